@@ -79,6 +79,7 @@ type walker struct {
 	headers map[*ssa.BasicBlock]bool
 	loopW   map[*ssa.BasicBlock]*effectSet // classes written by the loop of a header
 	subst   map[int]*Term                  // free variable cell contents (optional)
+	substV  map[int]*Term                  // free variables bound by value (optional)
 }
 
 type pstate struct {
@@ -200,12 +201,34 @@ func (an *Analysis) PathsOf(fn *ssa.Function) *FuncPaths {
 }
 
 // PathsWithFree enumerates a closure's paths with free-variable cells replaced by known contents.
-func (an *Analysis) PathsWithFree(fn *ssa.Function, subst map[int]*Term) *FuncPaths {
-	return an.computePaths(fn, subst)
+func (an *Analysis) PathsWithFree(fn *ssa.Function, subst, substV map[int]*Term) *FuncPaths {
+	return an.computePaths2(fn, subst, substV)
+}
+
+// ClosurePaths enumerates the paths of the closure created by a mkclosure event, with its
+// free variables replaced by what they were bound to at creation (cells whose content is known
+// at that point and that the closure does not write; values bound directly).
+func (an *Analysis) ClosurePaths(ev *Event) *FuncPaths {
+	clo := ev.Val
+	subst, substV := map[int]*Term{}, map[int]*Term{}
+	for i, b := range clo.Args {
+		if b.Op == "alloc" {
+			if i < len(ev.Args) && ev.Args[i] != nil && !an.freeVarWritten(ev.SSAFn, i) && storesTo(b.Val) <= 1 {
+				subst[i] = ev.Args[i]
+			}
+		} else {
+			substV[i] = b
+		}
+	}
+	return an.computePaths2(ev.SSAFn, subst, substV)
 }
 
 func (an *Analysis) computePaths(fn *ssa.Function, subst map[int]*Term) *FuncPaths {
-	w := &walker{an: an, fn: fn, out: &FuncPaths{Fn: fn}, headers: map[*ssa.BasicBlock]bool{}, loopW: map[*ssa.BasicBlock]*effectSet{}, subst: subst}
+	return an.computePaths2(fn, subst, nil)
+}
+
+func (an *Analysis) computePaths2(fn *ssa.Function, subst, substV map[int]*Term) *FuncPaths {
+	w := &walker{an: an, fn: fn, out: &FuncPaths{Fn: fn}, headers: map[*ssa.BasicBlock]bool{}, loopW: map[*ssa.BasicBlock]*effectSet{}, subst: subst, substV: substV}
 	if len(fn.Blocks) == 0 {
 		w.out.Unproven = "no body"
 		return w.out
@@ -487,6 +510,12 @@ func (w *walker) val(st *pstate, v ssa.Value) *Term {
 	case *ssa.FreeVar:
 		for i, p := range w.fn.FreeVars {
 			if p == x {
+				if w.substV != nil {
+					if sv, ok := w.substV[i]; ok {
+						st.env[v] = sv
+						return sv
+					}
+				}
 				t := &Term{Op: "free", N: i, Sym: x.Name(), Typ: x.Type(), Fn: w.fn, Val: x}
 				st.env[v] = t
 				return t
@@ -698,7 +727,7 @@ func (w *walker) step(st *pstate, in ssa.Instruction, b *ssa.BasicBlock, idx int
 		}
 		st.events = append(st.events, Event{Kind: "mkclosure", Instr: x, Val: t, Args: vals, SSAFn: fn, NCond: len(st.conds)})
 	case *ssa.MakeInterface:
-		st.env[x] = &Term{Op: "iface", Args: []*Term{w.val(st, x.X)}, Typ: x.Type(), Val: x}
+		st.env[x] = &Term{Op: "iface", Args: []*Term{w.val(st, x.X)}, Typ: x.Type(), Val: x, Sym: typeStr(x.X.Type())}
 	case *ssa.ChangeType:
 		st.env[x] = w.val(st, x.X)
 	case *ssa.ChangeInterface:
@@ -1078,4 +1107,18 @@ func phiName(p *ssa.Phi) string {
 		return p.Comment
 	}
 	return p.Name()
+}
+
+// storesTo counts the store instructions whose address is exactly v (within v's function).
+func storesTo(v ssa.Value) int {
+	if v == nil || v.Referrers() == nil {
+		return 99
+	}
+	n := 0
+	for _, r := range *v.Referrers() {
+		if st, ok := r.(*ssa.Store); ok && st.Addr == v {
+			n++
+		}
+	}
+	return n
 }
